@@ -335,7 +335,7 @@ func DeleteSegmentData(segmentsToDelete map[string]*structs.SegMeta) {
 
 	segBaseDirs := make(map[string]struct{}, len(segmentsToDelete))
 	for segkey := range segmentsToDelete {
-		baseDir, err := utils.GetSegBaseDirFromFilename(segkey)
+		baseDir, err := utils.GetSegBaseDirFromSegKey(segkey)
 		if err != nil {
 			log.Errorf("DeleteSegmentData: Cannot get segbaseDir from segkey=%v; err=%v", segkey, err)
 			continue
